@@ -82,12 +82,17 @@ def check_tmp(ctx):
                 if isinstance(s, ast.Expr) and isinstance(s.value, ast.Call) and A.call_name(s.value) in ("os.unlink", "os.remove") and s.value.args \
                         and canon(s.value.args[0]) == var + ".name":
                     unl = s
-            if unl is None:
+            formb = _cleanup_without_finally(tr, lst[k + 1:], var) if unl is None and not tr.finalbody else None
+            if unl is None and formb is not None and formb[0]:
+                ctx.ok(R, tr, "every exit of the try unlinks the temp file", "catch-all handler unlinks and re-raises; the normal path unlinks right after the try")
+            elif unl is None:
                 nested = [x for s in tr.finalbody for x in A.calls_in(s) if A.call_name(x) in ("os.unlink", "os.remove")]
                 anywhere = [x for x in A.calls_in(fn) if A.call_name(x) in ("os.unlink", "os.remove")]
                 why = "the try has no `finally`" if not tr.finalbody else "the finally block does not unconditionally unlink %s.name" % var
                 if nested:
-                    why = "the unlink in the finally block is conditional (`%s`)" % A.unparse(A.enclosing_stmt(nested[0]))[:60] if False else "the unlink in the finally block is conditional"
+                    why = "the unlink in the finally block is conditional"
+                elif formb is not None and anywhere:
+                    why += " and %s" % formb[1]
                 elif anywhere and not tr.finalbody:
                     why += " (unlink only happens on some paths)"
                 ctx.violate(R, tr, "finally unlinks the temp file", why + ": a failing wrapped call leaves the cache file behind", key="finally")
@@ -111,6 +116,31 @@ def check_tmp(ctx):
             ctx.check(R, tr, "cache write and wrapped call inside the try", any(x.endswith(".write") for x in body_calls) and "func" in body_calls,
                       "try body calls %s: the cache write or the wrapped call is not protected" % body_calls, key="body")
     ctx.floor(R, n, 1)
+
+
+def _is_unlink(s, var):
+    return isinstance(s, ast.Expr) and isinstance(s.value, ast.Call) and A.call_name(s.value) in ("os.unlink", "os.remove") and s.value.args \
+        and canon(s.value.args[0]) == var + ".name"
+
+
+def _cleanup_without_finally(tr, after, var):
+    """try without finally: (ok, why).  Equivalent to try/finally iff (a) a catch-all handler exists (bare / BaseException), (b) every handler starts with the
+    unlink and always raises, (c) the try body cannot leave by return/break/continue, there is no else block, and (d) the statement right after the try is the unlink."""
+    if tr.orelse:
+        return False, "the try has an else block"
+    catch_all = [h for h in tr.handlers if h.type is None or (dotted(h.type) or "") == "BaseException"]
+    if not catch_all:
+        kinds = [A.unparse(h.type) if h.type else "bare" for h in tr.handlers]
+        return False, "the handlers (%s) do not cover KeyboardInterrupt / SystemExit: those exits skip the unlink" % ", ".join(kinds)
+    for h in tr.handlers:
+        if not (h.body and _is_unlink(h.body[0], var) and A.always_raises(h.body)):
+            return False, "handler `except %s` does not unlink first and then re-raise" % (A.unparse(h.type) if h.type else "")
+    jumps = [x for s_ in tr.body for x in A.walk_local(s_) if isinstance(x, (ast.Return, ast.Break, ast.Continue))]
+    if jumps:
+        return False, "`%s` inside the try body leaves without the unlink" % A.unparse(jumps[0])[:40]
+    if not after or not _is_unlink(after[0], var):
+        return False, "the normal path does not unlink right after the try"
+    return True, ""
 
 
 def check_swallow(ctx, cg, reach):
@@ -362,6 +392,100 @@ def check_pool(ctx, cg, reach):
     ctx.floor(R, n, 1)
 
 
+PICKLE_FIXTURE = """
+class BadErr(RuntimeError):
+    def __init__(self, filename, err):
+        super().__init__(f"{filename}: {err}")
+        self.filename = filename
+
+class GoodErr(RuntimeError):
+    def __init__(self, filename, err):
+        super().__init__(filename, err)
+
+class PlainErr(ValueError):
+    pass
+
+class ReduceErr(RuntimeError):
+    def __init__(self, filename, err):
+        super().__init__("x")
+    def __reduce__(self):
+        return (ReduceErr, ("a", "b"))
+"""
+
+BUILTIN_EXC = {"BaseException", "Exception", "RuntimeError", "ValueError", "TypeError", "KeyError", "IndexError", "OSError", "IOError", "ArithmeticError", "LookupError",
+               "AttributeError", "NotImplementedError", "StopIteration", "AssertionError", "FloatingPointError", "ZeroDivisionError", "OverflowError", "Warning", "UserWarning",
+               "DeprecationWarning", "RuntimeWarning", "FileNotFoundError", "PermissionError", "TimeoutError", "MemoryError", "EOFError", "ImportError", "UnicodeError"}
+
+
+def exception_classes(trees):
+    """ClassDefs that derive (by name, transitively inside the given trees) from an exception type"""
+    classes = {}
+    for t in trees:
+        for n in ast.walk(t):
+            if isinstance(n, ast.ClassDef):
+                classes[n.name] = n
+    exc = set()
+    changed = True
+    while changed:
+        changed = False
+        for name, c in classes.items():
+            if name in exc:
+                continue
+            for b in c.bases:
+                bn = (dotted(b) or "").split(".")[-1]
+                if bn in BUILTIN_EXC or bn in exc or bn.endswith(("Error", "Exception", "Warning")):
+                    exc.add(name)
+                    changed = True
+                    break
+    return [classes[n] for n in sorted(exc)]
+
+
+def unpicklable_reason(c):
+    """None if instances of exception class c survive pickle.loads(pickle.dumps(e)) (BaseException.__reduce__ = (cls, self.args)), else why not"""
+    meths = {m.name: m for m in c.body if isinstance(m, ast.FunctionDef)}
+    if "__reduce__" in meths or "__reduce_ex__" in meths or "__getnewargs__" in meths or "__getstate__" in meths and "__setstate__" in meths and "__init__" not in meths:
+        return None
+    init = meths.get("__init__")
+    if init is None:
+        return None
+    a = init.args
+    pos = (a.posonlyargs + a.args)[1:]
+    n_req = len(pos) - len(a.defaults) if len(a.defaults) <= len(pos) else 0
+    n_max = None if a.vararg else len(pos)
+    kwreq = [k.arg for k, d in zip(a.kwonlyargs, a.kw_defaults) if d is None]
+    sup = [n for n in ast.walk(init) if isinstance(n, ast.Call) and isinstance(n.func, ast.Attribute) and n.func.attr == "__init__"
+           and ((isinstance(n.func.value, ast.Call) and isinstance(n.func.value.func, ast.Name) and n.func.value.func.id == "super") or isinstance(n.func.value, ast.Name))]
+    if not sup:
+        # BaseException.__new__ keeps the constructor arguments as .args
+        return "required keyword-only arguments %s are not part of .args" % kwreq if kwreq else None
+    for call in sup:
+        if any(isinstance(x, ast.Starred) for x in call.args):
+            continue
+        n = len(call.args)
+        if n < n_req or (n_max is not None and n > n_max) or kwreq:
+            return ("__init__ takes %s positional argument(s)%s but passes %d to the base class: .args has %d element(s), so un-pickling calls %s(*args) with the wrong number of "
+                    "arguments (TypeError in the parent's result-handler thread: the pool hangs instead of re-raising)") % (
+                        ("%d" % n_req) if n_max == n_req else "%d..%s" % (n_req, n_max if n_max is not None else "*"), " and keyword-only %s" % kwreq if kwreq else "", n, n, c.name)
+    return None
+
+
+def check_pickle(ctx):
+    R = "C13-PICKLE"
+    ctx.rule(R, "every exception class defined in the package survives the pickle round trip a multi-process pool applies to a worker's exception: either it keeps the default "
+                "constructor, defines its own __reduce__, or its __init__ hands the base class as many positional arguments as it requires itself (BaseException.__reduce__ "
+                "rebuilds the object as cls(*self.args)).")
+    ft = ast.parse(PICKLE_FIXTURE)
+    fx = {c.name: unpicklable_reason(c) for c in exception_classes([ft])}
+    if not (fx.get("BadErr") and fx.get("GoodErr") is None and fx.get("PlainErr") is None and fx.get("ReduceErr") is None and len(fx) == 4):
+        ctx.incomplete_(R, "fixture", "the pickle-round-trip scanner no longer separates the positive and negative fixtures: %s" % fx)
+    n = 0
+    for c in exception_classes([m.tree for m in ctx.prog.modules.values()]):
+        n += 1
+        why = unpicklable_reason(c)
+        ctx.check(R, c, "exception class %s survives pickling" % c.name, why is None, why or "", key="pickle:" + c.name)
+    ctx.ok(R, ("thejoker", 1, "thejoker.<package>"), "exception classes defined in the package: %d, all picklable" % n, nontrivial=False)
+
+
 def run(ctx):
     cg = CallGraph(ctx.prog)
     for e in ENTRY:
@@ -373,6 +497,7 @@ def run(ctx):
     check_write(ctx, cg, reach)
     check_state(ctx)
     check_pool(ctx, cg, reach)
+    check_pickle(ctx)
     ctx.notes.append({"call_sites_resolved": cg.resolved, "call_sites_external": cg.external})
     ctx.assume("tables.open_file(mode='r') and h5py.File(mode='r') never modify the file; os.unlink removes it")
     ctx.assume("exceptions raised inside pool workers are re-raised by pool.map in the parent (schwimmbad / multiprocessing contract)")
